@@ -149,15 +149,12 @@ func parseSegments(version string) ([]segment, error) {
 
 	// Add prerelease segments
 	if prereleasePart != "" {
+		// "-" means ".pre." (Gem::Version): 1.0.0-alpha.1 is 1.0.0.pre.alpha.1
+		segments = append(segments, createSegment("pre"))
 		prereleaseParts := strings.Split(prereleasePart, ".")
 		for _, part := range prereleaseParts {
 			if part != "" {
-				// Prerelease parts are always treated as non-numeric for comparison purposes
-				segments = append(segments, segment{
-					value:     strings.ToLower(part),
-					isNumeric: false,
-					numValue:  0,
-				})
+				segments = append(segments, createSegment(part))
 			}
 		}
 	}
@@ -219,30 +216,9 @@ func (v *Version) String() string {
 
 // Compare compares this version with another Ruby Gem version
 func (v *Version) Compare(other *Version) int {
-	// First compare the numeric parts
-	vNumeric, vPrerelease := v.splitNumericAndPrerelease()
-	oNumeric, oPrerelease := other.splitNumericAndPrerelease()
-
-	// Compare numeric parts first
-	numericCmp := compareSegmentArrays(vNumeric, oNumeric)
-	if numericCmp != 0 {
-		return numericCmp
-	}
-
-	// If numeric parts are equal, compare prerelease parts
-	// No prerelease > prerelease
-	if len(vPrerelease) == 0 && len(oPrerelease) == 0 {
-		return 0
-	}
-	if len(vPrerelease) == 0 {
-		return 1 // release > prerelease
-	}
-	if len(oPrerelease) == 0 {
-		return -1 // prerelease < release
-	}
-
-	// Both have prerelease, compare them
-	return compareSegmentArrays(vPrerelease, oPrerelease)
+	// Segments are compared position by position (Gem::Version#<=>): a missing segment counts
+	// as 0 and a string segment sorts below a number, so 2.0.0.rc1 < 2.0.0 < 2.0.0.1
+	return compareSegmentArrays(v.segments, other.segments)
 }
 
 // splitNumericAndPrerelease splits version into numeric and prerelease parts
@@ -295,12 +271,12 @@ func compareSegments(a, b segment) int {
 		return compareInt(a.numValue, b.numValue)
 	}
 
-	// One numeric, one string - in prerelease context, strings have precedence
+	// One numeric, one string: a string segment (pre-release) sorts below a number
 	if a.isNumeric && !b.isNumeric {
-		return -1
+		return 1
 	}
 	if !a.isNumeric && b.isNumeric {
-		return 1
+		return -1
 	}
 
 	// Both strings - lexical comparison
